@@ -14,6 +14,11 @@ Deciding step: fault enumeration inside the mcx explorer, against the real code 
               stream) cut at EVERY byte offset and dies by FIN or by reset; for the TLS transports the raw peer is an
               OpenSSL endpoint whose whole output (handshake flights, tickets, application records) is cut at every
               byte offset, XCM side as client and as server
+  (5) PROTO   a raw peer (plain and TLS, XCM side as client and as server) sends a valid frame followed by an invalid frame
+              header (length 0, 65536, 2^20) and stays connected: the framing-level protocol error, cut at every byte offset
+              on tcp; finish/send issued before and after xcm_receive discovers it
+After EVERY first terminal report the follow-up battery is: receive, send, finish in a scripted order, twice, then finish
+again and xcm_set_blocking(true) (which has to finish outstanding work and is judged like finish), all under the sticky oracle;
 all combined with every schedule / environment deviation pattern of <= D deviations.  The harness sees every choice
 the environment takes (link-time wrap of mc_choose), so the oracle knows exactly which errno was injected during
 which API call and whether a close was an orderly FIN or a reset at the wire."""
@@ -55,6 +60,9 @@ ASSUME = [
     "report may be the errno or EPROTO (truncated stream) - reported as an INFO line",
     "'same errno afterwards' is demanded on the TCP-based transports only; on ux/uxf the clauses are: nothing succeeds after a "
     "terminal report, 0 sticks, send after the close fails with EPIPE",
+    "xcm_set_blocking(true) on a connection that has reported a terminal condition is judged like xcm_finish (it has to finish "
+    "outstanding work): same errno on the TCP-based transports, 0 or EPIPE after an orderly close; when it succeeds the socket is "
+    "switched back to non-blocking at once",
     "message lengths {1,2,3} (+300, +65535 in the maximal-frame cut set); payload bytes patterned (data independence of framing)",
     "bounds: every choice sequence with <= D deviations (injected fault, I/O deviation, preemption each cost 1; the cut offset "
     "and the initial task order are free); a violation needing more is not excluded",
@@ -142,6 +150,23 @@ def configs(tier, exe):
         for role in ("c", "s"):
             n = tls_stream_len(exe, "tls", role, "R")
             c.append(("tp=tls,mode=raw,role=%s,sa=R,cut=0:%d,%s" % (role, n + 1, MENU), 1))
+    # (5) framing-level protocol error: a raw peer sends a good frame, then a header no XCM peer can send (length 0, 65536,
+    # 2^20), and stays connected - the protocol error is the only terminal condition and only xcm_receive can discover it;
+    # the application calls finish / send before or after the discovery, then the battery (every call twice, finish again,
+    # set_blocking(true))
+    for wire in ("bad0", "badmax", "badbig"):
+        for sa in ("R", "wfsR", "wsfR", "sfwR"):
+            if q and (wire == "badmax" or sa in ("wsfR", "sfwR")):
+                continue
+            c.append(("tp=tcp,mode=raw,sa=%s,wire=%s,cut=0:15,%s" % (sa, wire, MENU), 1 if q else 2))
+        c.append(("tp=tcp,mode=raw,role=s,sa=R,wire=%s,cut=0:15,%s" % (wire, MENU), 1 if q else 2))
+    for tp, role in (("tls", "c"), ("utlstls", "c"), ("tls", "s")):
+        for wire in ("bad0", "badbig"):
+            for sa in ("fR", "fwfsR", "fwsfR"):
+                if q and (sa == "fwsfR" or (wire == "bad0" and sa != "fR")):
+                    continue
+                # the whole stream is written (cuts inside it are family (4)); bounded deviations on the XCM side
+                c.append(("tp=%s,mode=raw,role=%s,sa=%s,wire=%s,cut=60000:60000,%s" % (tp, role, sa, wire, MENU), 1 if q else 2))
     # sanitizer build over the cut sets and the single faults
     c.append(("tp=tcp,mode=raw,sa=R,wire=3,cut=0:18,%s" % MENU, 1, "asan"))
     c.append(("tp=tcp,mode=pair,sa=ssfrrc,sb=rrssf,bat=rsf,fd=1", 1, "asan"))
@@ -223,7 +248,7 @@ def run(chk, tier, jobs, deadline):
     _explore_all(chk, cfgs, jobs, deadline or (600 if tier == "quick" else 2700))
     by_family = {}
     for c in cfgs:
-        fam = "raw" if "mode=raw" in c[0] else "conn" if "mode=conn" in c[0] else "fault" if "fd=1" in c[0] else "close"
+        fam = "proto" if "wire=bad" in c[0] else "raw" if "mode=raw" in c[0] else "conn" if "mode=conn" in c[0] else "fault" if "fd=1" in c[0] else "close"
         by_family[fam] = by_family.get(fam, 0) + 1
     chk.add_cov(transports=list(T) + ["ux", "uxf"], configurations_by_family=by_family,
                 errnos_injected=["ECONNRESET", "ETIMEDOUT", "EHOSTUNREACH", "ENETUNREACH", "EPIPE"],
